@@ -1230,6 +1230,194 @@ package gocql
 //@   ensures host.dataCenter != d.local && add_ret0 ==> (*unbox(d.remoteHosts.list.v, *[]*HostInfo))[len(*unbox(d.remoteHosts.list.v, *[]*HostInfo))-1] == host
 //@   ensures !add_ret0 ==> same(d.localHosts.list.v, old(d.localHosts.list.v)) && same(d.remoteHosts.list.v, old(d.remoteHosts.list.v))
 
+// ---- Pick of the round-robin family: the tiers are handed to roundRobbin nearest first, and the
+// start offset is the policy's counter after this pick's increment (successive picks rotate by one).
+// Assumption: fewer than 2^62 picks per policy object (int(counter) stays non-negative).
+//@ func (r *roundRobinHostPolicy) Pick
+//@   props C11
+//@   requires r.lastUsedHostIdx < 1<<62
+//@   requires dyn(r.hosts.list.v) == nil || (typeis(r.hosts.list.v, *[]*HostInfo) && unbox(r.hosts.list.v, *[]*HostInfo) != nil)
+//@   modifies r.lastUsedHostIdx
+//@   ensures r.lastUsedHostIdx == old(r.lastUsedHostIdx) + 1
+//@   before roundRobbin: arg0 == int(old(r.lastUsedHostIdx)) + 1 && len(arg1) == 1
+//@   before roundRobbin: dyn(r.hosts.list.v) == nil ==> len(arg1[0]) == 0
+//@   before roundRobbin: dyn(r.hosts.list.v) != nil ==> same(arg1[0], *unbox(r.hosts.list.v, *[]*HostInfo))
+
+//@ func (d *dcAwareRR) Pick
+//@   props C11
+//@   requires d.lastUsedHostIdx < 1<<62
+//@   requires dyn(d.localHosts.list.v) == nil || (typeis(d.localHosts.list.v, *[]*HostInfo) && unbox(d.localHosts.list.v, *[]*HostInfo) != nil)
+//@   requires dyn(d.remoteHosts.list.v) == nil || (typeis(d.remoteHosts.list.v, *[]*HostInfo) && unbox(d.remoteHosts.list.v, *[]*HostInfo) != nil)
+//@   modifies d.lastUsedHostIdx
+//@   ensures d.lastUsedHostIdx == old(d.lastUsedHostIdx) + 1
+//@   before roundRobbin: arg0 == int(old(d.lastUsedHostIdx)) + 1 && len(arg1) == 2
+//@   before roundRobbin: dyn(d.localHosts.list.v) == nil ==> len(arg1[0]) == 0
+//@   before roundRobbin: dyn(d.localHosts.list.v) != nil ==> same(arg1[0], *unbox(d.localHosts.list.v, *[]*HostInfo))
+//@   before roundRobbin: dyn(d.remoteHosts.list.v) == nil ==> len(arg1[1]) == 0
+//@   before roundRobbin: dyn(d.remoteHosts.list.v) != nil ==> same(arg1[1], *unbox(d.remoteHosts.list.v, *[]*HostInfo))
+
+//@ func (d *rackAwareRR) Pick
+//@   props C11
+//@   requires d.lastUsedHostIdx < 1<<62 && len(d.hosts) == 3
+//@   requires dyn(d.hosts[0].list.v) == nil || (typeis(d.hosts[0].list.v, *[]*HostInfo) && unbox(d.hosts[0].list.v, *[]*HostInfo) != nil)
+//@   requires dyn(d.hosts[1].list.v) == nil || (typeis(d.hosts[1].list.v, *[]*HostInfo) && unbox(d.hosts[1].list.v, *[]*HostInfo) != nil)
+//@   requires dyn(d.hosts[2].list.v) == nil || (typeis(d.hosts[2].list.v, *[]*HostInfo) && unbox(d.hosts[2].list.v, *[]*HostInfo) != nil)
+//@   modifies d.lastUsedHostIdx
+//@   ensures d.lastUsedHostIdx == old(d.lastUsedHostIdx) + 1
+//@   before roundRobbin: arg0 == int(old(d.lastUsedHostIdx)) + 1 && len(arg1) == 3
+//@   before roundRobbin: dyn(d.hosts[0].list.v) == nil ==> len(arg1[0]) == 0
+//@   before roundRobbin: dyn(d.hosts[0].list.v) != nil ==> same(arg1[0], *unbox(d.hosts[0].list.v, *[]*HostInfo))
+//@   before roundRobbin: dyn(d.hosts[1].list.v) == nil ==> len(arg1[1]) == 0
+//@   before roundRobbin: dyn(d.hosts[1].list.v) != nil ==> same(arg1[1], *unbox(d.hosts[1].list.v, *[]*HostInfo))
+//@   before roundRobbin: dyn(d.hosts[2].list.v) == nil ==> len(arg1[2]) == 0
+//@   before roundRobbin: dyn(d.hosts[2].list.v) != nil ==> same(arg1[2], *unbox(d.hosts[2].list.v, *[]*HostInfo))
+
+// ---- rack-aware policy: tier 0 = local rack, 1 = local DC other rack, 2 = other DC
+//@ func (d *rackAwareRR) MaxHostTier
+//@   props C11
+//@   ensures result == 2
+
+//@ func (d *rackAwareRR) HostTier
+//@   props C11
+//@   requires host != nil
+//@   modifies nothing
+//@   ensures result <= 2
+//@   ensures (result == 0) == (host.dataCenter == d.localDC && host.rack == d.localRack)
+//@   ensures (result == 2) == (host.dataCenter != d.localDC)
+
+//@ func (d *rackAwareRR) IsLocal
+//@   props C11
+//@   requires host != nil
+//@   modifies nothing
+//@   ensures result == (host.dataCenter == d.localDC && host.rack == d.localRack)
+
+//@ func (d *rackAwareRR) AddHost
+//@   props C11 C16
+//@   count_calls add
+//@   requires host != nil && len(d.hosts) == 3
+//@   requires dyn(d.hosts[0].list.v) == nil || (typeis(d.hosts[0].list.v, *[]*HostInfo) && unbox(d.hosts[0].list.v, *[]*HostInfo) != nil)
+//@   requires dyn(d.hosts[0].list.v) != nil ==> forall(i, 0 <= i && i < len(*unbox(d.hosts[0].list.v, *[]*HostInfo)), (*unbox(d.hosts[0].list.v, *[]*HostInfo))[i] != nil)
+//@   requires dyn(d.hosts[1].list.v) == nil || (typeis(d.hosts[1].list.v, *[]*HostInfo) && unbox(d.hosts[1].list.v, *[]*HostInfo) != nil)
+//@   requires dyn(d.hosts[1].list.v) != nil ==> forall(i, 0 <= i && i < len(*unbox(d.hosts[1].list.v, *[]*HostInfo)), (*unbox(d.hosts[1].list.v, *[]*HostInfo))[i] != nil)
+//@   requires dyn(d.hosts[2].list.v) == nil || (typeis(d.hosts[2].list.v, *[]*HostInfo) && unbox(d.hosts[2].list.v, *[]*HostInfo) != nil)
+//@   requires dyn(d.hosts[2].list.v) != nil ==> forall(i, 0 <= i && i < len(*unbox(d.hosts[2].list.v, *[]*HostInfo)), (*unbox(d.hosts[2].list.v, *[]*HostInfo))[i] != nil)
+//@   modifies d.hosts[*]
+//@   ensures add_calls == 1
+// only the host's own tier changes; an added host is the last entry of that tier
+//@   ensures !(host.dataCenter == d.localDC && host.rack == d.localRack) ==> same(d.hosts[0].list.v, old(d.hosts[0].list.v))
+//@   ensures !(host.dataCenter == d.localDC && host.rack != d.localRack) ==> same(d.hosts[1].list.v, old(d.hosts[1].list.v))
+//@   ensures !(host.dataCenter != d.localDC) ==> same(d.hosts[2].list.v, old(d.hosts[2].list.v))
+//@   ensures add_ret0 && (host.dataCenter == d.localDC && host.rack == d.localRack) ==> (*unbox(d.hosts[0].list.v, *[]*HostInfo))[len(*unbox(d.hosts[0].list.v, *[]*HostInfo))-1] == host
+//@   ensures add_ret0 && (host.dataCenter == d.localDC && host.rack != d.localRack) ==> (*unbox(d.hosts[1].list.v, *[]*HostInfo))[len(*unbox(d.hosts[1].list.v, *[]*HostInfo))-1] == host
+//@   ensures add_ret0 && (host.dataCenter != d.localDC) ==> (*unbox(d.hosts[2].list.v, *[]*HostInfo))[len(*unbox(d.hosts[2].list.v, *[]*HostInfo))-1] == host
+
+//@ func (r *roundRobinHostPolicy) AddHost
+//@   props C11 C16
+//@   count_calls add
+//@   requires host != nil
+//@   requires dyn(r.hosts.list.v) == nil || (typeis(r.hosts.list.v, *[]*HostInfo) && unbox(r.hosts.list.v, *[]*HostInfo) != nil)
+//@   requires dyn(r.hosts.list.v) != nil ==> forall(i, 0 <= i && i < len(*unbox(r.hosts.list.v, *[]*HostInfo)), (*unbox(r.hosts.list.v, *[]*HostInfo))[i] != nil)
+//@   modifies r.hosts
+//@   ensures add_calls == 1
+//@   ensures add_ret0 ==> (*unbox(r.hosts.list.v, *[]*HostInfo))[len(*unbox(r.hosts.list.v, *[]*HostInfo))-1] == host
+//@   ensures !add_ret0 ==> same(r.hosts.list.v, old(r.hosts.list.v))
+
+// removal touches only the host's own tier
+//@ func (d *dcAwareRR) RemoveHost
+//@   props C11 C16
+//@   count_calls remove
+//@   requires host != nil
+//@   requires dyn(d.localHosts.list.v) == nil || (typeis(d.localHosts.list.v, *[]*HostInfo) && unbox(d.localHosts.list.v, *[]*HostInfo) != nil)
+//@   requires dyn(d.localHosts.list.v) != nil ==> forall(i, 0 <= i && i < len(*unbox(d.localHosts.list.v, *[]*HostInfo)), (*unbox(d.localHosts.list.v, *[]*HostInfo))[i] != nil)
+//@   requires dyn(d.remoteHosts.list.v) == nil || (typeis(d.remoteHosts.list.v, *[]*HostInfo) && unbox(d.remoteHosts.list.v, *[]*HostInfo) != nil)
+//@   requires dyn(d.remoteHosts.list.v) != nil ==> forall(i, 0 <= i && i < len(*unbox(d.remoteHosts.list.v, *[]*HostInfo)), (*unbox(d.remoteHosts.list.v, *[]*HostInfo))[i] != nil)
+//@   modifies d.localHosts, d.remoteHosts
+//@   ensures remove_calls == 1
+//@   ensures host.dataCenter == d.local ==> same(d.remoteHosts.list.v, old(d.remoteHosts.list.v))
+//@   ensures host.dataCenter != d.local ==> same(d.localHosts.list.v, old(d.localHosts.list.v))
+//@   ensures !remove_ret0 ==> same(d.localHosts.list.v, old(d.localHosts.list.v)) && same(d.remoteHosts.list.v, old(d.remoteHosts.list.v))
+
+//@ func (d *rackAwareRR) RemoveHost
+//@   props C11 C16
+//@   count_calls remove
+//@   requires host != nil && len(d.hosts) == 3
+//@   requires dyn(d.hosts[0].list.v) == nil || (typeis(d.hosts[0].list.v, *[]*HostInfo) && unbox(d.hosts[0].list.v, *[]*HostInfo) != nil)
+//@   requires dyn(d.hosts[0].list.v) != nil ==> forall(i, 0 <= i && i < len(*unbox(d.hosts[0].list.v, *[]*HostInfo)), (*unbox(d.hosts[0].list.v, *[]*HostInfo))[i] != nil)
+//@   requires dyn(d.hosts[1].list.v) == nil || (typeis(d.hosts[1].list.v, *[]*HostInfo) && unbox(d.hosts[1].list.v, *[]*HostInfo) != nil)
+//@   requires dyn(d.hosts[1].list.v) != nil ==> forall(i, 0 <= i && i < len(*unbox(d.hosts[1].list.v, *[]*HostInfo)), (*unbox(d.hosts[1].list.v, *[]*HostInfo))[i] != nil)
+//@   requires dyn(d.hosts[2].list.v) == nil || (typeis(d.hosts[2].list.v, *[]*HostInfo) && unbox(d.hosts[2].list.v, *[]*HostInfo) != nil)
+//@   requires dyn(d.hosts[2].list.v) != nil ==> forall(i, 0 <= i && i < len(*unbox(d.hosts[2].list.v, *[]*HostInfo)), (*unbox(d.hosts[2].list.v, *[]*HostInfo))[i] != nil)
+//@   modifies d.hosts[*]
+//@   ensures remove_calls == 1
+//@   ensures !(host.dataCenter == d.localDC && host.rack == d.localRack) ==> same(d.hosts[0].list.v, old(d.hosts[0].list.v))
+//@   ensures !(host.dataCenter == d.localDC && host.rack != d.localRack) ==> same(d.hosts[1].list.v, old(d.hosts[1].list.v))
+//@   ensures !(host.dataCenter != d.localDC) ==> same(d.hosts[2].list.v, old(d.hosts[2].list.v))
+
+// ---- token-aware policy
+// Interface assumptions (documented contracts of the interfaces; proved above for rackAwareRR):
+//@ func (recv HostTierer) HostTier
+//@   interface
+//@   trusted a HostTierer never reports a tier above its MaxHostTier; reads only
+//@   modifies nothing
+//@   ensures result <= tier_max(recv)
+
+//@ func (recv HostTierer) MaxHostTier
+//@   interface
+//@   trusted MaxHostTier is a constant of the implementation
+//@   modifies nothing
+//@   ensures result == tier_max(recv)
+
+//@ func (recv HostSelectionPolicy) IsLocal
+//@   interface
+//@   trusted reads only
+//@   modifies nothing
+
+//@ func (recv HostSelectionPolicy) Pick
+//@   interface
+//@   trusted every policy returns a non-nil iterator (true of all implementations in this package)
+//@   ensures result != nil
+
+//@ func (recv SelectedHost) Info
+//@   interface
+//@   trusted a SelectedHost denotes one host: Info returns it on every call; reads only
+//@   modifies nothing
+//@   ensures result == sel_info(recv)
+
+// The iterator returned by tokenAwareHostPolicy.Pick. Closure invariant (requires = ensures):
+// positions in range, and once the fallback iterator exists both replica phases are exhausted
+// (local replicas first, then - with NonLocalReplicasFallback - replicas of every farther tier,
+// then the remaining hosts).
+//@ func (t *tokenAwareHostPolicy) Pick$1
+//@   props C11
+//@   count_calls IsUp HostTierer.HostTier HostSelectionPolicy.IsLocal HostSelectionPolicy.Pick SelectedHost.Info
+//@   requires *t != nil && (*t).fallback != nil && *used != nil
+//@   requires forall(x, 0 <= x && x < len(*replicas), (*replicas)[x] != nil)
+//@   requires 0 <= *i && *i <= len(*replicas)
+//@   requires *tiererOk ==> *tierer != nil
+//@   requires (*t).nonLocalReplicasFallback && *tiererOk ==> len(*remote) == int(tier_max(*tierer))
+//@   requires (*t).nonLocalReplicasFallback && !*tiererOk ==> len(*remote) == 1
+//@   requires !(*t).nonLocalReplicasFallback ==> len(*remote) == 0
+//@   requires 0 <= *j && *j <= len(*remote) && 0 <= *k && (*j < len(*remote) ==> *k <= len((*remote)[*j]))
+//@   requires *fallbackIter != nil ==> *i == len(*replicas) && *j == len(*remote)
+//@   requires i != j && i != k && j != k
+//@   ensures 0 <= *i && *i <= len(*replicas) && *i >= old(*i)
+//@   ensures 0 <= *j && *j <= len(*remote) && 0 <= *k && (*j < len(*remote) ==> *k <= len((*remote)[*j]))
+// phase order
+//@   ensures *fallbackIter != nil ==> *i == len(*replicas) && *j == len(*remote)
+//@   ensures result == nil ==> *fallbackIter != nil
+// a host offered by the replica phases was up when offered
+//@   ensures result != nil && *fallbackIter == nil ==> typeis(result, *selectedHost) && IsUp_calls >= 1 && IsUp_ret0
+//@   loop 0: invariant 0 <= *i && *i <= len(*replicas) && *i >= old(*i) && same(*fallbackIter, old(*fallbackIter)) && *j == old(*j) && *k == old(*k)
+//@   loop 0: invariant same(*remote, old(*remote)) && same(*replicas, old(*replicas)) && *used != nil
+//@   loop 0: invariant 0 <= *j && *j <= len(*remote) && 0 <= *k && (*j < len(*remote) ==> *k <= len((*remote)[*j]))
+//@   loop 1: invariant *j >= old(*j) && same(*remote, old(*remote))
+//@   loop 1: invariant *i == len(*replicas) && *i >= old(*i) && same(*fallbackIter, old(*fallbackIter)) && (*t).nonLocalReplicasFallback && *used != nil
+//@   loop 1: invariant 0 <= *j && *j <= len(*remote) && 0 <= *k && (*j < len(*remote) ==> *k <= len((*remote)[*j]))
+//@   loop 2: invariant *i == len(*replicas) && *i >= old(*i)
+//@   loop 2: invariant *fallbackIter != nil
+//@   loop 2: invariant *j == len(*remote) && 0 <= *k
+//@   loop 2: invariant *used != nil
+
 //@ func roundRobbin
 //@   props C11
 //@   requires 0 <= shift && shift <= 1<<62
